@@ -63,6 +63,7 @@ func emitLocate(e *Emitter, stride int, p geom.Coord, ring []float64) {
 	}
 	in := fmt.Sprintf("(%d %s %s)", stride, sxCoord(p), sxCoord(ring))
 	p, ring = slot(0, p...), slot(1, ring...) // caller's buffers reused for every call
+	e.pending("C11.locate", in)
 	e.emit("C11.locate", in, guard(func() string {
 		return fmt.Sprintf("(%s %v)", locName(xy.LocatePointInRing(l, p, ring)), xy.IsPointInRing(l, p, ring))
 	}))
